@@ -531,6 +531,13 @@ func checkSpendPasses(c *Ctx, rule string, leaseOnly bool) {
 func runC01(c *Ctx) {
 	p := c.P
 	checkSpendPasses(c, "C01-R1", false)
+	checkMaturityComparisonsCanonical(c, "C01-R1")
+	// an output counts only while it is not leased: the lease must not be ended by anything but its owner, its expiry or
+	// a confirmed spend (C12's rules on the writers of the lease bucket, taken over)
+	c.Borrow(runC12, "C12-R4", "C01-R1", func(k string) bool { return strings.HasPrefix(k, "lease-release-per-input") })
+	c.Borrow(runC12, "C12-R5", "C01-R1", func(k string) bool {
+		return strings.HasPrefix(k, "lease-released-only-by-owner-expiry-or-confirmed-spend") || strings.HasPrefix(k, "lease-bucket-writer")
+	})
 	checkSeekHeightNonNegative(c, "C01-R1")
 	checkArithmeticAccumulators(c, "C01-R2", "wtxmgr")
 
@@ -930,4 +937,67 @@ func flagValueAt(fn *ssa.Function, cs ssa.CallInstruction, x string) (bool, bool
 		return val, known
 	}
 	return false, false
+}
+
+// checkMaturityComparisonsCanonical: a coinbase output counts from the block in which it has `maturity` confirmations:
+// wherever the wallet compares a confirmation count with the network's coinbase maturity itself (instead of handing the
+// maturity to the canonical predicate confirmed(minconf, txHeight, curHeight)), the comparison is the same relation:
+// "immature iff confs < maturity". Normalised to `L < 0`, that is confs - maturity < 0 or maturity - confs - 1 < 0; a
+// `<=` / `>` is off by one block per coinbase, and the listing disagrees with the balance at exactly that height.
+func checkMaturityComparisonsCanonical(c *Ctx, rule string) {
+	p := c.P
+	isMaturity := func(v ssa.Value) bool {
+		for _, o := range (&Slicer{P: p, ThroughBinOp: false}).Origins(v) {
+			if _, f, _, ok := fieldOf(o); ok && f == "CoinbaseMaturity" {
+				return true
+			}
+		}
+		return false
+	}
+	nUse, nCmp := 0, 0
+	for _, fn := range p.FuncsIn("wallet") {
+		for _, b := range fn.Blocks {
+			for _, ins := range b.Instrs {
+				switch x := ins.(type) {
+				case *ssa.Call:
+					if calleeShort(&x.Call) == "confirmed" && len(x.Call.Args) == 3 && isMaturity(x.Call.Args[0]) {
+						nUse++
+					}
+				case *ssa.BinOp:
+					switch x.Op {
+					case token.LSS, token.LEQ, token.GTR, token.GEQ, token.EQL, token.NEQ:
+					default:
+						continue
+					}
+					mx, my := isMaturity(x.X), isMaturity(x.Y)
+					if mx == my {
+						continue
+					}
+					nUse++
+					nCmp++
+					f, ok := p.cmpForm(x, true)
+					okRel := false
+					if ok && f.Rel == "<" {
+						m := p.linearize(x.Y, 0)
+						if mx {
+							m = p.linearize(x.X, 0)
+						}
+						// sign of the maturity operand in the normalised form
+						for k, coef := range m.Coef {
+							switch f.L.Coef[k] * coef {
+							case -1: // confs - maturity (+k) < 0
+								okRel = f.L.Konst == 0
+							case 1: // maturity - confs - 1 < 0
+								okRel = f.L.Konst == -1
+							}
+						}
+					}
+					c.Check(rule, "maturity-comparison-canonical:"+fnName(fn), x.Pos(), okRel,
+						fnName(fn)+" compares a confirmation count with the coinbase maturity with a relation other than 'immature iff confs < maturity' ("+f.L.String()+" "+f.Rel+" 0): a coinbase output with exactly `maturity` confirmations is treated differently here than by the balance and the coin selection")
+				}
+			}
+		}
+	}
+	c.Floor(rule, "uses of the coinbase maturity in the wallet package", nUse, 4)
+	_ = nCmp
 }
